@@ -1,1 +1,379 @@
-From Verif Require Import Base.Str Expand.Param.
+(* Proofs/ParamProofs.v — proofs about Expand/Param.v against Expand/ParamSpec.v. *)
+From Verif Require Import Base.Str Expand.Param Expand.ParamSpec.
+From Coq Require Import ZifyN ZifyNat ZifyBool.
+Open Scope N_scope.
+
+Arguments N.add : simpl never.
+Arguments N.div : simpl never.
+Arguments N.modulo : simpl never.
+
+(* ------------------------------------------------------------------ the parameter's value *)
+
+Lemma indexed_val_elem_of : forall l ix i,
+  (0 <= i)%Z -> indexed_val l ix i = Ok (elem_of l ix i).
+Proof.
+  intros l ix i Hi. unfold indexed_val, elem_of. destruct ix as [ixs|].
+  - destruct (ix_pos ixs i); reflexivity.
+  - destruct (Z.ltb_spec i 0); [lia | reflexivity].
+Qed.
+
+Lemma indexed_max_eq : forall l ix, indexed_max l ix = max_index l ix.
+Proof. reflexivity. Qed.
+
+Definition set_of (v : option str) : bool := negb (is_unset v).
+
+Lemma opt_pair : forall o : option str,
+  (opt_str o, match o with Some _ => true | None => false end) = (cur o, set_of o).
+Proof. destruct o; reflexivity. Qed.
+
+(* varInd computes the manual's notion of "the parameter's value" for every subscript
+   other than @ and * *)
+Lemma var_index_spec : forall e vr i v,
+  is_list_idx i = false ->
+  bash_value vr i = PVal v ->
+  var_index e vr i = OOk (cur v, set_of v).
+Proof.
+  intros e vr i v Hl Hv.
+  destruct vr as [|s|l ix|m]; destruct i as [| | |n|k]; simpl in Hl; try discriminate;
+    simpl in Hv; try discriminate.
+  - inversion Hv; reflexivity.
+  - inversion Hv; reflexivity.
+  - inversion Hv; reflexivity.
+  - inversion Hv; reflexivity.
+  - inversion Hv; subst. simpl. destruct (Z.eqb n 0); reflexivity.
+  - inversion Hv; subst. simpl. rewrite indexed_val_elem_of by lia. now rewrite opt_pair.
+  - simpl. fold (max_index l ix) in *.
+    change (indexed_max l ix) with (max_index l ix).
+    destruct (Z.ltb_spec n 0).
+    + destruct (Z.ltb_spec (n + max_index l ix + 1) 0); [discriminate|].
+      inversion Hv; subst. rewrite indexed_val_elem_of by lia.
+      destruct (elem_of l ix (n + max_index l ix + 1)); reflexivity.
+    + inversion Hv; subst. destruct (Z.ltb_spec n 0); [lia|].
+      rewrite indexed_val_elem_of by lia. destruct (elem_of l ix n); reflexivity.
+  - inversion Hv; subst. simpl. now rewrite opt_pair.
+  - simpl. destruct (Z.ltb n 0); [discriminate|]. inversion Hv; subst. now rewrite opt_pair.
+  - inversion Hv; subst. simpl. now rewrite opt_pair.
+Qed.
+
+Lemma eff_idx_plain : forall name i o,
+  is_params_name name = false -> eff_idx (mkP name i o) = i.
+Proof.
+  intros name i o H. unfold eff_idx, is_params_name in *. simpl.
+  destruct (str_eqb name AT); [discriminate|]. destruct (str_eqb name STAR); [discriminate|]. reflexivity.
+Qed.
+
+(* shape of param_exp on a non-list subject *)
+Section WithFns.
+  Variable upper lower : N -> N.
+  Variable quote : str -> str.
+
+  Lemma param_exp_scalar : forall e name i o v,
+    is_params_name name = false ->
+    is_list_idx i = false ->
+    bash_value (env_get e name) i = PVal v ->
+    param_exp upper lower quote e (mkP name i o) =
+    (let sv := cur v in let set := set_of v in let vr := env_get e name in
+     let elems := [sv] in
+     let joinf := fun l : list str => join SP l in
+     match o with
+     | PNone => OOk (sv, None)
+     | PLength => OOk (itoa (Z.of_nat (length sv)), None)
+     | PExcl =>
+         match i, vr with
+         | INone, _ =>
+             if negb (is_set vr) then OErr 2
+             else match sv with [] => OOk ([], None)
+                  | _ => OOk (joinf [var_string (env_get e sv)], None) end
+         | _, VIdx l ix =>
+             OOk (joinf (match ix with
+                         | Some ixs => map itoa ixs
+                         | None => map (fun i => itoa (Z.of_nat i)) (seq 0 (length l))
+                         end), None)
+         | _, VAssoc m => OOk (joinf (assoc_keys m), None)
+         | _, _ =>
+             if negb (is_set vr) then OErr 2
+             else match sv with [] => OOk ([], None)
+                  | _ => OOk (joinf [var_string (env_get e sv)], None) end
+         end
+     | PSlice off len =>
+         let n := length sv in
+         let in_range := match off with
+                         | Some o => Z.leb o (Z.of_nat n) && Z.leb (- Z.of_nat n) o
+                         | None => true
+                         end in
+         let rs := match off with Some o => skipn (slice_pos n o) sv | None => sv end in
+         match len with
+         | None => OOk (rs, None)
+         | Some l =>
+             if Z.ltb l 0 && Z.ltb (Z.of_nat (length rs) + l) 0 && set && in_range
+             then OErr 4
+             else OOk (firstn (slice_pos (length rs) l) rs, None)
+         end
+     | PRepl all orig w =>
+         if negb set then OOk (sv, None)
+         else obind (opt_out (replace_elems all orig w elems)) (fun el => OOk (joinf el, None))
+     | PExp op w =>
+         let arg := exp_arg op w in
+         match op with
+         | AltUnsetOrNull =>
+             match sv with [] => OOk (sv, None) | _ => OOk (if set then arg else sv, None) end
+         | AltUnset => OOk (if set then arg else sv, None)
+         | DefUnset =>
+             if set then OOk (sv, None)
+             else OOk (match sv with [] => arg | _ => sv end, None)
+         | DefUnsetOrNull => OOk (match sv with [] => arg | _ => sv end, None)
+         | ErrUnset =>
+             if set then OOk (sv, None)
+             else match sv with [] => OErrUnset arg | _ => OOk (sv, None) end
+         | ErrUnsetOrNull =>
+             match sv with [] => OErrUnset arg | _ => OOk (sv, None) end
+         | AsgUnset | AsgUnsetOrNull =>
+             let skip := match op with AsgUnset => set | _ => false end in
+             if skip then OOk (sv, None)
+             else match sv with
+                  | [] =>
+                      match i, vr with
+                      | INone, VUnset | INone, VStr _ =>
+                          if is_params_name name then OOut
+                          else OOk (arg, Some (name, VStr arg))
+                      | _, _ => OOut
+                      end
+                  | _ => OOk (sv, None)
+                  end
+         | RemSP | RemLP | RemSS | RemLS | UpFirst | UpAll | LowFirst | LowAll =>
+             if negb (pat_in_model arg) then OOut
+             else obind (opt_out (rem_case_elems upper lower op arg elems)) (fun el => OOk (joinf el, None))
+         | OtherOp =>
+             match arg with
+             | [81] => OOk (if set then quote sv else sv, None)
+             | [85] => OOk (map upper sv, None)
+             | [117] => OOk (match sv with [] => [] | c :: r => upper c :: r end, None)
+             | [76] => OOk (map lower sv, None)
+             | _ => OOut
+             end
+         end
+     end).
+  Proof.
+    intros e name i o v Hn Hl Hv.
+    unfold param_exp. rewrite (eff_idx_plain name i o Hn). cbn [p_name p_idx p_op].
+    rewrite Hl. cbn iota beta.
+    rewrite (var_index_spec e _ i v Hl Hv). cbn [obind].
+    assert (Hs : is_star i = false) by (destruct i; simpl in *; congruence).
+    rewrite Hs. reflexivity.
+  Qed.
+End WithFns.
+
+(* ------------------------------------------------------------------ defaults, length, substring, transform, indirect *)
+
+Definition is_default_op (op : expop) : bool :=
+  match op with
+  | AltUnset | AltUnsetOrNull | DefUnset | DefUnsetOrNull
+  | ErrUnset | ErrUnsetOrNull | AsgUnset | AsgUnsetOrNull => true
+  | _ => false
+  end.
+
+(* ${p=w} is covered for a plain scalar (or unset) variable without subscript *)
+Definition assign_scope (op : expop) (i : idx) (vr : var) : bool :=
+  match op with
+  | AsgUnset | AsgUnsetOrNull =>
+      match i, vr with INone, VUnset | INone, VStr _ => true | _, _ => false end
+  | _ => true
+  end.
+
+Definition lift (o : outcome str) : outcome (str * option (str * var)) :=
+  obind o (fun s => OOk (s, None)).
+
+Section Theorems.
+  Variable upper lower : N -> N.
+  Variable quote : str -> str.
+  Notation pexp_eval := (param_exp upper lower quote).
+
+  Lemma defaults_correct : forall e name i op w v,
+    is_params_name name = false ->
+    is_list_idx i = false ->
+    is_default_op op = true ->
+    bash_value (env_get e name) i = PVal v ->
+    assign_scope op i (env_get e name) = true ->
+    pexp_eval e (mkP name i (PExp op w)) = bash_default op name v (literal_of w).
+  Proof.
+    intros e name i op w v Hn Hl Hop Hv Ha.
+    rewrite (param_exp_scalar upper lower quote e name i _ v Hn Hl Hv). cbv zeta.
+    destruct op; try discriminate Hop; unfold exp_arg; cbn [is_pat_op];
+      destruct v as [[|c s]|]; cbn [cur set_of is_unset is_null negb bash_default]; try reflexivity;
+      rewrite ?Hn;
+      destruct i; try discriminate Ha; destruct (env_get e name); try discriminate Ha; reflexivity.
+  Qed.
+
+  Lemma length_correct : forall e name i v,
+    is_params_name name = false ->
+    is_list_idx i = false ->
+    bash_value (env_get e name) i = PVal v ->
+    pexp_eval e (mkP name i PLength) = OOk (bash_length v, None).
+  Proof.
+    intros. rewrite (param_exp_scalar upper lower quote e name i _ v) by assumption. reflexivity.
+  Qed.
+
+  Lemma firstn_min : forall (A : Type) (l : list A) n, (length l <= n)%nat -> firstn n l = l.
+  Proof. intros. apply firstn_all2. assumption. Qed.
+
+  Lemma skipn_nil_ge : forall (A : Type) (l : list A) n, (length l <= n)%nat -> skipn n l = [].
+  Proof. intros. apply skipn_all2. assumption. Qed.
+
+  Lemma substring_correct : forall e name i off len v,
+    is_params_name name = false ->
+    is_list_idx i = false ->
+    bash_value (env_get e name) i = PVal v ->
+    pexp_eval e (mkP name i (PSlice off len)) = lift (bash_substring v off len).
+  Proof.
+    intros e name i off len v Hn Hl Hv.
+    rewrite (param_exp_scalar upper lower quote e name i _ v Hn Hl Hv). cbv zeta.
+    destruct v as [s|]; cbn [cur set_of is_unset negb bash_substring]; cbv zeta.
+    2:{ (* unset *)
+        assert (Hr : (match off with Some o => skipn (slice_pos (@length N []) o) (@nil N) | None => [] end) = [])
+          by (destruct off; [apply skipn_nil | reflexivity]).
+        rewrite Hr. destruct len; cbn [lift obind]; [|reflexivity].
+        rewrite !andb_false_r || idtac.
+        replace (Z.ltb z 0 && Z.ltb (Z.of_nat (@length N []) + z) 0 && false &&
+                 match off with Some o => Z.leb o (Z.of_nat (@length N [])) && Z.leb (- Z.of_nat (@length N [])) o | None => true end)
+          with false by (rewrite andb_false_r; reflexivity).
+        rewrite firstn_nil. reflexivity. }
+    set (n := length s).
+    destruct off as [o|].
+    - (* offset given *)
+      destruct (Z.ltb_spec o 0) as [Ho|Ho].
+      + (* negative offset *)
+        destruct (Z.ltb_spec (o + Z.of_nat n) 0) as [Ho1|Ho1].
+        * (* before the start: nothing *)
+          cbn [orb].
+          assert (Hsp : slice_pos n o = n).
+          { unfold slice_pos. destruct (Z.ltb_spec o 0); [|lia].
+            destruct (Z.ltb_spec (Z.of_nat n + o) 0); [reflexivity|lia]. }
+          rewrite Hsp. rewrite (skipn_nil_ge _ s n) by (unfold n; lia).
+          destruct len as [l|]; cbn [lift obind]; [|reflexivity].
+          replace (Z.leb (- Z.of_nat n) o) with false by (symmetry; apply Z.leb_gt; lia).
+          rewrite !andb_false_r. rewrite firstn_nil. reflexivity.
+        * assert (Hn2 : Z.ltb (Z.of_nat n) (o + Z.of_nat n) = false) by (apply Z.ltb_ge; lia).
+          rewrite Hn2. cbn [orb].
+          assert (Hsp : slice_pos n o = Z.to_nat (o + Z.of_nat n)).
+          { unfold slice_pos. destruct (Z.ltb_spec o 0); [|lia].
+            destruct (Z.ltb_spec (Z.of_nat n + o) 0); [lia|]. f_equal. lia. }
+          rewrite Hsp.
+          destruct len as [l|]; cbn [lift obind]; [|reflexivity].
+          assert (Hlen : length (skipn (Z.to_nat (o + Z.of_nat n)) s) = (n - Z.to_nat (o + Z.of_nat n))%nat)
+            by (rewrite skipn_length; reflexivity).
+          rewrite Hlen.
+          replace (Z.leb o (Z.of_nat n) && Z.leb (- Z.of_nat n) o) with true
+            by (symmetry; apply andb_true_iff; split; apply Z.leb_le; lia).
+          rewrite !andb_true_r.
+          destruct (Z.ltb_spec l 0) as [Hl0|Hl0]; cbn [andb].
+          -- destruct (Z.ltb_spec (Z.of_nat n + l) (o + Z.of_nat n)) as [He|He].
+             ++ replace (Z.ltb (Z.of_nat (n - Z.to_nat (o + Z.of_nat n)) + l) 0) with true
+                  by (symmetry; apply Z.ltb_lt; lia). reflexivity.
+             ++ replace (Z.ltb (Z.of_nat (n - Z.to_nat (o + Z.of_nat n)) + l) 0) with false
+                  by (symmetry; apply Z.ltb_ge; lia).
+                cbn [lift obind]. do 3 f_equal.
+                unfold slice_pos. destruct (Z.ltb_spec l 0); [|lia].
+                destruct (Z.ltb_spec (Z.of_nat (n - Z.to_nat (o + Z.of_nat n)) + l) 0); [lia|]. lia.
+          -- cbn [lift obind]. do 2 f_equal.
+             unfold slice_pos. destruct (Z.ltb_spec l 0); [lia|].
+             destruct (Z.ltb_spec (Z.of_nat (n - Z.to_nat (o + Z.of_nat n))) l).
+             ++ rewrite !firstn_min; [reflexivity | rewrite Hlen; lia | rewrite Hlen; lia].
+             ++ reflexivity.
+      + (* non-negative offset *)
+        assert (Hf : Z.ltb o 0 = false) by (apply Z.ltb_ge; lia).
+        rewrite ?Hf. cbn [orb].
+        destruct (Z.ltb_spec (Z.of_nat n) o) as [Hbig|Hbig].
+        * assert (Hsp : slice_pos n o = n).
+          { unfold slice_pos. destruct (Z.ltb_spec o 0); [lia|].
+            destruct (Z.ltb_spec (Z.of_nat n) o); [reflexivity|lia]. }
+          rewrite Hsp. rewrite (skipn_nil_ge _ s n) by (unfold n; lia).
+          destruct len as [l|]; cbn [lift obind]; [|reflexivity].
+          replace (Z.leb o (Z.of_nat n)) with false by (symmetry; apply Z.leb_gt; lia).
+          cbn [andb]. rewrite !andb_false_r. rewrite firstn_nil. reflexivity.
+        * assert (Hsp : slice_pos n o = Z.to_nat o).
+          { unfold slice_pos. destruct (Z.ltb_spec o 0); [lia|].
+            destruct (Z.ltb_spec (Z.of_nat n) o); [lia|reflexivity]. }
+          rewrite Hsp.
+          destruct len as [l|]; cbn [lift obind]; [|reflexivity].
+          assert (Hlen : length (skipn (Z.to_nat o) s) = (n - Z.to_nat o)%nat)
+            by (rewrite skipn_length; reflexivity).
+          rewrite Hlen.
+          replace (Z.leb o (Z.of_nat n) && Z.leb (- Z.of_nat n) o) with true
+            by (symmetry; apply andb_true_iff; split; apply Z.leb_le; lia).
+          rewrite !andb_true_r.
+          destruct (Z.ltb_spec l 0) as [Hl0|Hl0]; cbn [andb].
+          -- destruct (Z.ltb_spec (Z.of_nat n + l) o) as [He|He].
+             ++ replace (Z.ltb (Z.of_nat (n - Z.to_nat o) + l) 0) with true
+                  by (symmetry; apply Z.ltb_lt; lia). reflexivity.
+             ++ replace (Z.ltb (Z.of_nat (n - Z.to_nat o) + l) 0) with false
+                  by (symmetry; apply Z.ltb_ge; lia).
+                cbn [lift obind]. do 3 f_equal.
+                unfold slice_pos. destruct (Z.ltb_spec l 0); [|lia].
+                destruct (Z.ltb_spec (Z.of_nat (n - Z.to_nat o) + l) 0); [lia|]. lia.
+          -- cbn [lift obind]. do 2 f_equal.
+             unfold slice_pos. destruct (Z.ltb_spec l 0); [lia|].
+             destruct (Z.ltb_spec (Z.of_nat (n - Z.to_nat o)) l).
+             ++ rewrite !firstn_min; [reflexivity | rewrite Hlen; lia | rewrite Hlen; lia].
+             ++ reflexivity.
+    - (* no offset: ${p::l} *)
+      change (Z.ltb 0 0) with false. cbv iota. change (Z.ltb 0 0) with false.
+      replace (Z.ltb (Z.of_nat n) 0) with false by (symmetry; apply Z.ltb_ge; lia).
+      cbn [orb]. change (Z.to_nat 0) with O. cbn [skipn].
+      destruct len as [l|]; cbn [lift obind]; [|reflexivity].
+      rewrite !andb_true_r. fold n.
+      destruct (Z.ltb_spec l 0) as [Hl0|Hl0]; cbn [andb].
+      + destruct (Z.ltb_spec (Z.of_nat n + l) 0) as [He|He].
+        * reflexivity.
+        * cbn [lift obind]. do 3 f_equal.
+          unfold slice_pos. destruct (Z.ltb_spec l 0); [|lia].
+          destruct (Z.ltb_spec (Z.of_nat n + l) 0); [lia|]. lia.
+      + cbn [lift obind]. do 2 f_equal.
+        unfold slice_pos. destruct (Z.ltb_spec l 0); [lia|].
+        destruct (Z.ltb_spec (Z.of_nat n) l).
+        * rewrite !firstn_min; [reflexivity | lia | unfold n in *; lia].
+        * reflexivity.
+  Qed.
+
+  Lemma transform_correct : forall e name i k v,
+    is_params_name name = false ->
+    is_list_idx i = false ->
+    bash_value (env_get e name) i = PVal v ->
+    In k [81; 85; 117; 76] ->
+    pexp_eval e (mkP name i (PExp OtherOp [WLit [k]])) =
+    OOk (bash_transform upper lower quote k v, None).
+  Proof.
+    intros e name i k v Hn Hl Hv Hk.
+    rewrite (param_exp_scalar upper lower quote e name i _ v Hn Hl Hv). cbv zeta.
+    unfold exp_arg, literal_of. cbn [is_pat_op flat_map part_text app].
+    destruct Hk as [<-|[<-|[<-|[<-|[]]]]]; destruct v as [s|]; reflexivity.
+  Qed.
+
+  Definition not_assoc (v : var) : bool := match v with VAssoc _ => false | _ => true end.
+  Definition plain_scalar (v : var) : bool := match v with VUnset | VStr _ => true | _ => false end.
+
+  Lemma var_string_value : forall vr,
+    not_assoc vr = true ->
+    var_string vr = match bash_value vr INone with PVal (Some t) => t | _ => [] end.
+  Proof.
+    destruct vr as [|s|l ix|m]; simpl; intros; try reflexivity; try discriminate.
+    unfold var_string. rewrite indexed_val_elem_of by lia. destruct (elem_of l ix 0); reflexivity.
+  Qed.
+
+  (* ${!name}: name a plain scalar (or unset) whose value is non-empty, the target not an
+     associative array (known findings indirect_invalid_name, indirect_to_assoc) *)
+  Lemma indirect_correct : forall e name v,
+    is_params_name name = false ->
+    plain_scalar (env_get e name) = true ->
+    bash_value (env_get e name) INone = PVal v ->
+    v <> Some [] ->
+    not_assoc (env_get e (cur v)) = true ->
+    pexp_eval e (mkP name INone PExcl) = lift (bash_indirect e v).
+  Proof.
+    intros e name v Hn Hp Hv Hne Hna.
+    rewrite (param_exp_scalar upper lower quote e name INone _ v Hn eq_refl Hv). cbv zeta.
+    destruct (env_get e name) as [|s| |] eqn:Hvr; try discriminate Hp; simpl in Hv; inversion Hv; subst v.
+    - reflexivity.
+    - cbn [is_set negb cur]. destruct s as [|c s]; [exfalso; apply Hne; reflexivity|].
+      cbn [cur] in Hna. cbn [bash_indirect lift obind join]. rewrite (var_string_value _ Hna). reflexivity.
+  Qed.
+End Theorems.
